@@ -200,6 +200,18 @@ def relation_parse_lines(tier='quick'):
                 out.append('parse %s %s' % (e, bytes(b).hex()))
                 if last == 0:
                     out.append('parse packet %s' % bytes(b).hex())
+    # SDES: one chunk whose first item has every small length octet, PRIV and not, with every small first data octet
+    # (the PRIV prefix length), followed by the terminator and fill, by another item, or by nothing
+    for ty in (1, 8):
+        for ln in (0, 1, 2, 3, 4):
+            for b0 in (0, 1, 2, 3, 4, 255):
+                item = bytes([ty, ln]) + (bytes([b0]) + b'xyz')[:ln]
+                for tail in (b'', bytes([0]), bytes([1, 1, 0x61, 0])):
+                    body = bytes([0, 0, 0, 9]) + item + tail
+                    body += bytes(-len(body) % 4)
+                    total = 4 + len(body)
+                    pk = bytes([0x81, 202]) + (total // 4 - 1).to_bytes(2, 'big') + body
+                    out.append('parse sdes %s' % pk.hex())
     # FIR entries with equal SSRCs next to each other (sequence going forward, backward, wrapping, equal)
     for a, b2 in ((7, 8), (8, 7), (255, 0), (7, 7), (1, 128), (1, 129)):
         fci = bytes.fromhex('13579bdf') + bytes([a, 0, 0, 0]) + bytes.fromhex('13579bdf') + bytes([b2, 0, 0, 0]) + \
